@@ -147,6 +147,34 @@ ARTISTS = ('CirclePixelRegion', 'EllipsePixelRegion', 'RectanglePixelRegion', 'P
            'PointPixelRegion', 'LinePixelRegion', 'TextPixelRegion', 'CompoundPixelRegion')
 
 
+def _merge_term(ctx, star):
+    """when as_artist hands the merge of stored and caller keywords to a method of RegionVisual
+    (`self.visual.<method>(artist, kwargs)`), the value of that method with define_mpl_kwargs kept opaque; else None."""
+    m = ctx.model
+    if not (isinstance(star, App) and star.name == 'apply' and isinstance(star.args[0], App)
+            and star.args[0].name.startswith('attr:') and len(star.args) >= 3):
+        return None
+    rv = m.cls('RegionVisual')
+    g = m.method(rv, star.args[0].name[5:])
+    recv = star.args[0].args[0] if star.args[0].args else None
+    if g is None or not (isinstance(recv, Obj) and recv.path == 'self.visual') or not isinstance(star.args[1], Const):
+        return None
+    dm = m.method(rv, 'define_mpl_kwargs')
+    ev = Evaluator(m, hooks={dm.qualname: lambda e, a, k: App('define_mpl_kwargs', (a[0], a[1]))})
+    out = ev.run(g, [Obj('RegionVisual', {}, 'self.visual', rv), star.args[1], Obj('dict', {}, 'caller_kwargs')], {})
+    vals = [v for _, v in out.returns]
+    return vals[0] if len(vals) == 1 and not out.raises else None
+
+
+def _caller_last(t):
+    """is t `dict.updated(<stored keywords>, <caller keywords>)` — the caller's keywords applied last, both sides possibly
+    passed through matplotlib's own alias normalisation?"""
+    if not (isinstance(t, App) and t.name == 'dict.updated' and len(t.args) == 2):
+        return False
+    base, upd = show(t.args[0], 6000), show(t.args[1], 2000)
+    return 'define_mpl_kwargs(self.visual' in base and 'caller_kwargs' in upd and 'define_mpl_kwargs' not in upd
+
+
 def r2(ctx):
     for cname in ARTISTS:
         ci, f, so, ev, t = _artist(ctx, cname)
@@ -159,6 +187,15 @@ def r2(ctx):
         if not arts:
             raise AnalysisError('C18.R2', construct, f'no artist constructed: {show(t, 200)}')
         pos, kw, star = _args(arts[0])
+        mt = _merge_term(ctx, star)
+        if mt is not None:
+            if _caller_last(mt):
+                ctx.ok(construct, 'artist(**merge(visual defaults, caller kwargs)) with the caller\'s keywords applied last')
+            else:
+                ctx.bad(construct, 'kwargs-order', 'the keyword arguments reaching the artist are merged by '
+                        f'{star.args[0].name[5:]}, whose value is not the stored keywords updated with the caller\'s last: '
+                        + show(mt, 240), f.loc())
+            continue
         ok = isinstance(star, DictV) and star.layers
         why = ''
         if ok:
@@ -320,10 +357,43 @@ def r2b(ctx):
         if g is not None and any('_to_mpl_kwargs' in ast.unparse(c) or 'keymap' in ast.unparse(c)
                                  for c in ast.walk(g.node) if isinstance(c, ast.Call)):
             translated.add(ci.name)
+    # a merge method of RegionVisual that as_artist delegates to: aliases of one property meet under matplotlib's long
+    # names when both sides go through matplotlib's normalize_kwargs; a caller keyword that the translation hands to
+    # another property must be carried over to that property explicitly
+    merges = {}
+    for ci in m.region_classes('pixel'):
+        if m.method(ci, 'as_artist') is None or m.lookup(ci, '_mpl_artist') is None:
+            continue
+        try:
+            ci_, f_, so_, ev_, t_ = _artist(ctx, ci.name)
+        except AnalysisError:
+            continue
+        arts_ = [t_] if isinstance(t_, App) else ([x for x in (t_.a, t_.b) if isinstance(x, App)] if isinstance(t_, Ite) else [])
+        if ci.name == 'CompoundPixelRegion':
+            arts_ = _find_apps(t_, 'PathPatch')
+        if arts_:
+            star_ = _args(arts_[0])[2]
+            mt_ = _merge_term(ctx, star_)
+            if mt_ is not None and isinstance(star_.args[1], Const):
+                merges.setdefault(star_.args[1].v, []).append((ci.name, mt_))
     for art in ('Text', 'Line2D', 'Patch'):
         renamed = {(k, v) for k, v in keymaps[art].items() if k != v}
         clash = sorted(renamed & MPL_SAME_PROPERTY.get(art, set()))
         shadow = sorted(renamed & MPL_OTHER_PROPERTY.get(art, set()))
+        if merges.get(art):
+            okm = True
+            for cname_, mt_ in merges[art]:
+                txt_ = show(mt_, 20000)
+                both_normalised = _caller_last(mt_) and 'normalize_kwargs(caller_kwargs' in show(mt_.args[1], 2000) \
+                    and 'normalize_kwargs(dict["**define_mpl_kwargs(self.visual' in show(mt_.args[0], 20000)
+                carried = all(any(isinstance(x, App) and x.name == 'setitem' and len(x.args) == 3 and isinstance(x.args[1], Const)
+                                  and x.args[1].v == v_ and 'caller_kwargs' in show(x.args[2], 600) and f"'{k_}'" in show(x.args[2], 600)
+                                  for x in _find_apps(mt_, 'setitem')) for k_, v_ in shadow)
+                okm = okm and both_normalised and carried
+            if okm:
+                ctx.ok(art, 'stored and caller keywords are merged under matplotlib\'s long names (normalize_kwargs on both), '
+                       'caller last; keywords handed to another property are carried over')
+                continue
         users = [ci.name for ci in m.region_classes('pixel') if getattr(ci, 'name', None) and
                  (m.lookup(ci, '_mpl_artist') is not None) and ci.name not in translated]
         if clash and users:
